@@ -266,7 +266,7 @@ def gen_ops(rng, n, weights=None, pool_uids=0):
     """Abstract operations; targets are indices resolved against the live tree at run time."""
     w = {"create_group": 3, "create_object": 5, "add_data": 7, "rename": 2, "flag": 2, "set_values": 3,
          "set_geometry": 2, "move": 3, "remove_ws": 3, "remove_parent": 2, "copy": 3, "pg_add": 3, "pg_remove": 1,
-         "reopen": 2, "gc": 1, "protect": 1}
+         "reopen": 2, "gc": 1, "protect": 1, "retype": 1}
     w.update(weights or {})
     kinds = [k for k, c in w.items() for _ in range(c)]
     ops = []
@@ -396,6 +396,14 @@ class Session:
                 kw = {"values": vals, "association": assoc, "type": typ, "uid": u}
                 if typ == "REFERENCED":
                     kw["value_map"] = {1: "A", 2: "B"}
+                if op["c"] % 3 == 0 and typ in ("FLOAT", "INTEGER"):
+                    # a third of the numeric data share the data type of an existing data set of the same kind
+                    cls_name = {"FLOAT": "FloatData", "INTEGER": "IntegerData"}[typ]
+                    same = [x for x in ents if is_data(x) and type(x).__name__ == cls_name]
+                    if same:
+                        kw["entity_type"] = same[op["c"] // 3 % len(same)].entity_type
+                        del kw["type"]
+                    del same
                 new = parent.add_data({name: kw})
             except Exception as e:  # noqa: BLE001
                 status = "refused:" + type(e).__name__
@@ -428,6 +436,26 @@ class Session:
             setattr(e, attr, val)
             self.events.append(f"set {attr} of {self.uids.num(e.uid)} = {val}")
             self.record({"o": "setAttr", "u": self.uids.num(e.uid), "key": key, "tok": tok(val)}, "ok")
+            return
+        if k == "retype":
+            num = lambda x: is_data(x) and type(x).__name__ in ("FloatData", "IntegerData")  # noqa: E731
+            users = {}
+            for x in ents:
+                if num(x):
+                    users[x.entity_type.uid] = users.get(x.entity_type.uid, 0) + 1
+            e = None
+            if op["c"] % 3 != 0:      # mostly re-type a data set whose type has other users (locality matters there)
+                e = self.pick(ents, op["a"], lambda x: num(x) and users[x.entity_type.uid] > 1)
+            if e is None:
+                e = self.pick(ents, op["a"], num)
+            if e is None:
+                return
+            o = self.pick(ents, op["b"], lambda x: type(x) is type(e) and x.entity_type.uid != e.entity_type.uid)
+            if o is None:
+                return
+            e.entity_type = o.entity_type
+            self.events.append(f"retype {self.uids.num(e.uid)} to the type of {self.uids.num(o.uid)}")
+            self.record({"o": "setTyp", "u": self.uids.num(e.uid), "typ": self.uids.num(o.entity_type.uid)}, "ok")
             return
         if k == "protect":
             e = self.pick(ents, op["a"], not_root)
